@@ -50,6 +50,8 @@ def main(argv=None):
     ap.add_argument('prop')
     ap.add_argument('--tier', default=os.environ.get('VERIF_TIER', 'quick'))
     ap.add_argument('--replay')
+    ap.add_argument('--no-evidence', action='store_true',
+                    help='do not rewrite evidence/ (used when trying seeded changes)')
     args = ap.parse_args(argv)
     seed = int(os.environ.get('VERIF_SEED', '0') or 0)
     only = None
@@ -58,7 +60,7 @@ def main(argv=None):
             only = json.load(fh)['obligation']['id']
     try:
         st, _ = run_property(args.prop, args.tier, only=only, seed=seed,
-                             evidence=not args.replay)
+                             evidence=not args.replay and not args.no_evidence)
     except Exception:  # noqa
         print('ANALYSIS-ERROR %s: checker crashed\n%s' % (
             args.prop, traceback.format_exc()))
